@@ -8,26 +8,26 @@ ids = [p["id"] for p in props]
 # id -> (technique, level text, level note, design ref)
 CHECKS = {
  "C01": ("proptest differential testing against a Vec/position-list model, 4 aliases x 6 element types x 3 construction paths, two build profiles",
-         "Generated-input search: every answer of len/sigma/get/rank/rank_prefetch/select on shape-generated sequences (lengths around every block/superblock/sample period, alphabets around powers of 2 and 4, full-width values) is compared with an independent model, in an optimised build and in a build with debug assertions and overflow checks; process-killing failures are caught by the driver. No claim beyond the generated cases (lengths <= 70 000 quick / 600 000 thorough).",
+         "Generated-input search: every answer of len/sigma/get/rank/rank_prefetch/select on shape-generated sequences (lengths around every block/superblock/sample period, alphabets around powers of 2 and 4, full-width values) is compared with an independent model, in an optimised build and in a build with debug assertions and overflow checks; process-killing failures are caught by the driver. No claim beyond the cases explored: generated lengths <= 400 000 (quick) / 1 310 000 (thorough), plus one enumerated 2^27-symbol input with a closed-form oracle (16-bit superblock-id truncation).",
          "the model in harness/src/model.rs; proptest's generators; symbols fit the element type by construction", "3/C01"),
  "C02": ("proptest differential testing with generated Huffman tie seeds (cfg(qwt_verif) hook) and code-shape-forcing frequency profiles",
-         "As C01 for the four HQWT aliases: absent symbols must answer None, every case carries a tie seed that fixes the builder's hash-order choices, a quarter of the cases are rebuilt under three more tie orders; frequency profiles include the cheapest profile forcing a maximal-depth 4-ary code (depth <= 15 below n = 1.3M). Codes longer than 32 bits (depth >= 17) are outside the generated range.",
+         "As C01 for the four HQWT aliases: absent symbols must answer None, every case carries a tie seed that fixes the builder's hash-order choices, a quarter of the cases are rebuilt under three more tie orders; frequency profiles include the cheapest profile forcing a maximal-depth 4-ary code; two enumerated inputs reach the deepest supported code (16 levels, n = 1 318 810 / 1 400 001). Codes longer than 32 bits (depth >= 17) are the recorded finding KF-2 and outside the generated range.",
          "the model; the hook only permutes ties (code lengths among equal frequencies, codes among equal lengths); symbol values <= 2^20 (table indexed by symbol)", "3/C02"),
  "C03": ("proptest differential testing of WT and HWT against the model, all element types, tie seeds for HWT",
          "As C01/C02 for the binary trees, including symbols wider than 32/64 bits for WT, single-symbol and empty inputs, and select on symbols above max(S).",
          "the model; the hook as in C02", "3/C03"),
  "C05": ("proptest differential testing of RSQVector256/512 against a quaternary model, all symbols 0..=255",
          "get/rank/select/occs/occs_smaller on generated quaternary sequences (explicit, weighted, runs, periodic, rare symbol, symbol absent from leading superblocks; lengths around 128..4096 multiples and the 8192-occurrence sampling period) compared with the model; every symbol 4..=255 must be rejected.",
-         "the model; lengths <= 200 000 quick / 4 000 000 thorough", "3/C05"),
+         "the model; generated lengths <= 1 000 000 quick / 8 000 000 thorough, plus enumerated periodic inputs of 2^27 + 70 001 and 2^28 + 70 001 symbols checked against closed-form answers", "3/C05"),
  "C06": ("proptest differential testing of RSNarrow and RSWide against a bit model",
          "get/rank1/rank0/select1/select0/totals on generated bit vectors (all densities, runs, all-ones blocks, counts of ones/zeros crossing multiples of 1024 and 8192 by -1/0/+1) compared with the model in two build profiles.",
-         "the model; lengths <= 300 000 quick / 6 000 000 thorough", "3/C06"),
+         "the model; generated lengths <= 1 200 000 quick / 16 000 000 thorough; thorough adds a 2^32 + 20 603-bit sparse vector with closed-form answers", "3/C06"),
  "C07": ("proptest differential testing of DArray with a group grammar (dense / sparse / threshold 1024-one groups, complemented for select0)",
          "select1 (and select0) for every k on vectors assembled from 1024-one groups that are dense, sparse, exactly at the 65536-bit threshold or cluster+gap, in every order, plus len/count/get/iterators; built from bools and from typed position lists.",
-         "the model; <= 4 groups quick / 8 thorough (vectors up to a few million bits)", "3/C07"),
+         "the model; <= 4 groups quick / 8 thorough (vectors up to a few million bits); thorough adds a position list reaching beyond bit 2^32", "3/C07"),
  "C08": ("proptest stateful testing: operation histories over BitVectorMut interpreted against Vec<bool>",
          "Model-based testing over generated histories (push, append_bits, extend_with_zeros, set, set_bits, extend with bools/positions, conversions, clone, rebuild) with observations after every step and exhaustive get_bits/position-iterator comparisons on small vectors.",
-         "Vec<bool> model; arguments constructed inside the documented preconditions; KF-1 signature excluded (counted)", "3/C08"),
+         "Vec<bool> model; arguments constructed inside the documented preconditions; KF-1 signature excluded (counted); thorough adds a vector with 2^32 + 1000 ones", "3/C08"),
  "C13": ("proptest stateful testing of QVectorBuilder / QVector over all 12 integer carrier types",
          "Generated push/extend/from_iter histories with values over the whole range of each integer type; len/is_empty/get/iterators compared with the low two bits of every value.",
          "Vec<u8> model", "3/C13"),
@@ -74,16 +74,18 @@ def entry(pid):
             "engine": "qv", "level_claimed": {"category": "exploration", "text": text, "design_ref": f"DESIGN.md section {ref}"},
             "level_note": note, "technique": t}
 
-hook_commits = ["1601969"]
+hook_commits = ["1601969"]  # verif hook: deterministic Huffman tie-breaking behind cfg(qwt_verif)
 m = {"version": 1, "setup_cmd": "./check --setup",
      "hooks": {"guard": "qwt_verif",
                "enable": "RUSTFLAGS=\"--cfg qwt_verif\" is set by ./check for every cargo build of /verif/harness, which path-depends on /repo",
                "baseline_off_cmd": "cd /repo && cargo test --workspace --lib --bins --no-fail-fast --offline",
                "source_commits": hook_commits, "add_only": True},
      "engines": [{"name": "qv", "path": "/verif/harness", "serves_properties": sorted(CHECKS),
-                  "kind_free_text": "Rust crate (proptest 1.11 TestRunner with fixed seeds, reference models, adapters over every public type) driven by the python script /verif/check (builds fast/checked/noprefetch profiles, shards, watchdog, crash isolation, evidence)"}],
+                  "kind_free_text": "Rust crate (proptest 1.11 TestRunner with fixed seeds, reference models, adapters over every public type) driven by the python script /verif/check (builds fast/checked/noprefetch profiles, shards, watchdog, crash isolation, evidence)"},
+                 {"name": "fuzz", "path": "/verif/harness/fuzz", "serves_properties": ["C01", "C02", "C03", "C04", "C05", "C06", "C07", "C08", "C09", "C10", "C12"],
+                  "kind_free_text": "cargo-fuzz / libFuzzer targets (ASan, with and without debug assertions) that decode bytes into the properties' own cases and run the same oracles; thorough tier only"}],
      "checks": [entry(p) for p in ids if p in CHECKS],
      "not_applicable": [{"property_id": p, "reason": "check under construction in this session (see DESIGN.md section 3); not yet claimed"} for p in ids if p not in CHECKS],
-     "notes": "Exit codes: 0 held, 1 VIOLATION line printed, 2 inconclusive (build failure/watchdog). Known findings: /verif/known_findings.json."}
+     "notes": "Exit codes: 0 held, 1 VIOLATION line printed, 2 inconclusive (build failure, watchdog, or a panic inside the harness itself). Known findings: /verif/known_findings.json (KF-1 under C08, KF-2 under C02 and C03). Seeded changes used to validate the checks: /verif/seeded (76, see DESIGN.md section 10). Thorough tiers add cargo-fuzz campaigns (ASan) for C01-C10 and C12 and huge-input probes for C06, C07, C08, C17."}
 json.dump(m, open(os.path.join(V, "MANIFEST.json"), "w"), indent=1)
 print("checks:", [c["property_id"] for c in m["checks"]])
